@@ -48,9 +48,39 @@ class NonSeekable:
         return self._f.readline(n)
 
 
+_REQ_CLASSES = {}
+
+
+def req_class(name):
+    """the configuration knobs of the request classes: url_encoding, request_body_tempfile_limit, the class itself"""
+    from webob.request import Request, BaseRequest
+    if not _REQ_CLASSES:
+        class LatinRequest(Request):
+            url_encoding = "latin-1"
+
+        class SmallTmpRequest(Request):
+            request_body_tempfile_limit = 4
+
+        _REQ_CLASSES.update({None: Request, "request": Request, "base": BaseRequest, "latin1": LatinRequest, "smalltmp": SmallTmpRequest})
+    return _REQ_CLASSES[name]
+
+
+class MinimalFile:
+    """only what from_file documents it needs: .read(size) and .readline()"""
+
+    def __init__(self, f):
+        self._f = f
+
+    def read(self, *a):
+        return self._f.read(*a)
+
+    def readline(self):
+        return self._f.readline()
+
+
 def build_request(E):
     """A real Request over an environ that corresponds to the model env E (a dict)."""
-    from webob import Request
+    Request = req_class(E.get("cls"))
     environ = {
         "REQUEST_METHOD": E["method"],
         "SCRIPT_NAME": L1(E["script"]),
@@ -71,7 +101,8 @@ def build_request(E):
     environ["wsgi.input"] = io.BytesIO(E["input"]) if E["seekable"] else NonSeekable(E["input"])
     environ["webob.is_body_seekable"] = bool(E["seekable"])
     if E["term"]:
-        environ["wsgi.input_terminated"] = True
+        # the flag and its legacy spelling
+        environ["webob.is_body_readable" if E.get("legacy_term") else "wsgi.input_terminated"] = True
     return Request(environ)
 
 
@@ -125,6 +156,8 @@ def unjE(d):
 
 
 # --------------------------------------------------------------------------- generators (requests)
+# trailing data, with the whitespace-only and line-terminator-only suffixes a lenient check would let through
+EXTRAS = [b"", b"X", b"\r\n", b"\n", b" ", b"\t ", b"\r\n\r\n", b"\r", b"\x0b\x0c", b"GET / HTTP/1.0\r\n\r\n", b"\x00", b"\xa0"]
 METHODS = ["GET", "POST", "PUT", "DELETE", "PATCH", "HEAD", "OPTIONS", "PROPFIND", "M-SEARCH", "X_Y", "FOO!", "A1"]
 PROTOS = ["HTTP/1.0", "HTTP/1.1", "HTTP/1.1", "HTTP/2", "HTTP/0.9"]
 HOSTS = ["localhost:80", "example.com", "example.com:8080", "example.com:80", "example.com:443", "[::1]:8080", "[::1]",
@@ -194,6 +227,15 @@ def rand_env(rng, wellformed=False):
          "scheme": "http" if wellformed or rng.random() < 0.8 else "https",
          "sname": rng.choice(["localhost", "srv.example"]), "sport": rng.choice(["80", "8080", "443"]),
          "hdrs": rand_hdrs(rng, host=wellformed or rng.random() < 0.85), "input": b"", "seekable": True, "term": False}
+    r = rng.random()
+    if r < 0.12:
+        E["cls"] = "latin1"
+        E["path"] = E["path"] + b"/" + rng.choice([b"\xe9", b"\xff\xfe", b"caf\xe9 x", b"\x80", b"\xa0"])
+    elif r < 0.22:
+        E["cls"] = "smalltmp"
+    elif r < 0.30:
+        E["cls"] = "base"
+    E["legacy_term"] = rng.random() < 0.3
     body = rand_body(rng)
     mode = rng.choice(["cl", "cl", "cl", "none", "zero", "file"] if wellformed else
                       ["cl", "cl", "none", "zero", "file", "term-seekable", "short-cl", "long-cl", "junk-cl", "long-cl-ns", "short-cl-ns"])
@@ -308,16 +350,18 @@ def rt_request_oracle(E, extra=b"X", file_kind="bytesio"):
             return ("request-roundtrip:skip_body", "as_bytes(skip_body=len(body)-1) is %r" % mk)
     # --- parse it back
     try:
-        r2 = Request.from_bytes(b)
+        r2 = type(req).from_bytes(b)
     except Exception as e:  # noqa
         return ("request-roundtrip:from_bytes-raises", "from_bytes(as_bytes()) raised %s: %s; bytes %r" % (exc_name(e), e, b))
     msg = compare_requests(E, req, r2, url1, h1, body, "from_bytes")
     if msg:
         return msg
+    if type(r2) is not type(req):
+        return ("request-roundtrip:class", "from_bytes of %s returned a %s" % (type(req).__name__, type(r2).__name__))
     # --- from_file: consumes exactly the serialised bytes
     f = make_file(file_kind, b + extra)
     try:
-        r3 = Request.from_file(f)
+        r3 = type(req).from_file(f)
     except Exception as e:  # noqa
         if body or not extra:
             return ("request-roundtrip:from_file-raises", "from_file raised %s: %s on %r" % (exc_name(e), e, b + extra))
@@ -332,7 +376,7 @@ def rt_request_oracle(E, extra=b"X", file_kind="bytesio"):
     # --- trailing data after a non-empty body is an error
     if body and extra:
         try:
-            Request.from_bytes(b + extra)
+            type(req).from_bytes(b + extra)
             return ("request-roundtrip:trailing-data-accepted", "from_bytes accepted %r after the %d-byte body" % (extra, len(body)))
         except ValueError:
             pass
@@ -346,6 +390,8 @@ def make_file(kind, data):
         return io.BytesIO(data)
     if kind == "buffered":
         return io.BufferedReader(io.BytesIO(data), buffer_size=7)
+    if kind == "minimal":
+        return MinimalFile(io.BytesIO(data))
     if kind == "tempfile":
         f = tempfile.TemporaryFile()
         f.write(data)
@@ -394,9 +440,11 @@ def rt_request_text_oracle(E):
     t = req.as_text()
     if t.encode("utf-8") != req.as_bytes():
         return ("request-roundtrip:as_text", "as_text() is not the utf-8 decoding of as_bytes()")
+    Request = type(req)
     for how, mk in (("from_file(StringIO)", lambda: Request.from_file(io.StringIO(t))),
                     ("from_file(TextIOWrapper)", lambda: Request.from_file(io.TextIOWrapper(io.BytesIO(t.encode("utf-8")),
                                                                                           encoding="utf-8", newline=""))),
+                    ("from_file(minimal text file)", lambda: Request.from_file(MinimalFile(io.StringIO(t)))),
                     ("from_text", lambda: Request.from_text(t))):
         try:
             r2 = mk()
@@ -621,12 +669,18 @@ def make_app(script, excs, log):
             log.closes += 1
 
     shape = script["shape"]
+    if script.get("sr_kw"):
+        # start_response(status, headers, exc_info=...) by keyword
+        do_pos = do
+
+        def do(ev, start_response):  # noqa
+            return do_pos(ev, lambda st, h, ei=None: start_response(st, h, exc_info=ei))
     if shape == "generator":
         def app(environ, start_response):          # a generator function: nothing runs before the first next()
             for ev in script["call"]:
                 do(ev, start_response)
             yield from produce(start_response)
-        return app
+        return wrap_app(app, script.get("wrap"))
 
     def app(environ, start_response):
         for ev in script["call"]:
@@ -635,11 +689,48 @@ def make_app(script, excs, log):
             r = [it[1] for it in script["items"]]
         elif shape == "tuple":
             r = tuple(it[1] for it in script["items"])
+        elif shape == "listiter":
+            r = iter([it[1] for it in script["items"]])         # an iterator without close()
+        elif shape == "deque":
+            import collections
+            r = collections.deque(it[1] for it in script["items"])
         else:
             r = (ClosingIter if script["close"] else Iter)(start_response)
         log.iterable = r
         return r
+    return wrap_app(app, script.get("wrap"))
+
+
+def wrap_app(app, how):
+    """the shapes a WSGI application comes in: function, callable object, bound method, functools.partial"""
+    if how == "object":
+        class App:
+            def __call__(self, environ, start_response):
+                return app(environ, start_response)
+        return App()
+    if how == "method":
+        class Holder:
+            def handle(self, environ, start_response):
+                return app(environ, start_response)
+        return Holder().handle
+    if how == "partial":
+        import functools
+        return functools.partial(lambda extra, environ, start_response: app(environ, start_response), "x")
     return app
+
+
+def call_sub(req, app, catch, via, style):
+    """the ways of passing catch_exc_info: keyword bool, positional, truthy/falsy non-bool, omitted when false"""
+    f = getattr(req, via)
+    if style == "positional":
+        return f(app, catch)
+    if style == "int":
+        return f(app, catch_exc_info=1 if catch else 0)
+    if style == "omit" and not catch:
+        return f(app)
+    if style == "object":
+        return f(app, catch_exc_info=[0] if catch else None)
+    return f(app, catch_exc_info=catch)
 
 
 def model_script(script):
@@ -647,6 +738,7 @@ def model_script(script):
     if script["shape"] == "generator":
         return {"call": [], "items": [("ev", e) for e in script["call"]] + list(script["items"]), "close": True}
     return {"call": script["call"], "items": script["items"], "close": script["close"] and script["shape"] == "iter"}
+    # (list / tuple / listiter / deque: plain iterables of chunks without close())
 
 
 def cev(e):
@@ -759,13 +851,16 @@ def call_application_oracle(script, catch, via, req=None):
     has_close = script["shape"] == "iter" and script["close"]
     webob_drains = True          # is webob the one iterating when an exception comes out?
     try:
+        style = script.get("catch_style")
         if via == "call_application":
-            res = req.call_application(app, catch_exc_info=catch)
+            res = call_sub(req, app, catch, "call_application", style)
             status, headers, app_iter = res[0], list(res[1]), res[2]
             exc_info = res[3] if catch else None
             if len(res) != (4 if catch else 3):
                 return ("call_application:tuple-shape", "returned a %d-tuple with catch_exc_info=%r" % (len(res), catch))
             consumed = app_iter is not log.iterable or script["shape"] == "generator"
+            if not consumed and type(app_iter) is not type(log.iterable):
+                return ("call_application:iterable-replaced", "the application's %s came back as %s" % (type(log.iterable), type(app_iter)))
             if consumed and has_close and log.closes != 1:
                 return ("call_application:close", "webob consumed the iterable but called close() %d times" % log.closes)
             if not consumed and log.closes != 0:
@@ -777,14 +872,17 @@ def call_application_oracle(script, catch, via, req=None):
                 if hasattr(app_iter, "close"):
                     app_iter.close()
         else:
-            resp = req.get_response(app, catch_exc_info=catch)
+            resp = call_sub(req, app, catch, via, style)          # via: "get_response" or its other name "send"
+            if type(resp) is not req.ResponseClass:
+                return ("call_application:response-class", "%s returned a %s, ResponseClass is %s" % (
+                    via, type(resp).__name__, req.ResponseClass.__name__))
             status, headers, exc_info = resp.status, list(resp.headerlist), None
             body = resp.body
     except BaseException as e:  # noqa
         if ref[0] != "raised":
             if isinstance(e, IndexError) and ref[1] is None:
                 return None                    # the application never called start_response: nothing to return
-            if isinstance(e, AssertionError) and lazy_shape(script) and via == "get_response":
+            if isinstance(e, AssertionError) and lazy_shape(script) and via != "call_application":
                 return (K_LAZY, "get_response: %s (write() called from the iterable after an eager start_response is lost)" % e)
             return ("call_application:unexpected-exception", "%s raised %s: %s; the application did not fail" % (via, exc_name(e), e))
         want = excs[ref[1]]
@@ -842,7 +940,7 @@ def rand_ev(rng, started, kinds):
 
 
 def rand_script(rng, lazy_ok=True):
-    shape = rng.choice(["list", "tuple", "iter", "iter", "iter", "generator"])
+    shape = rng.choice(["list", "tuple", "iter", "iter", "iter", "generator", "listiter", "deque"])
     call, items = [], []
     started = False
     if rng.random() < 0.75:
@@ -854,7 +952,7 @@ def rand_script(rng, lazy_ok=True):
     wrote = any(e[0] == "write" for e in call)
     unconsumed = started and not wrote and shape != "generator"       # webob hands the iterable back
     for _ in range(rng.choice([0, 1, 2, 3, 5])):
-        if shape in ("list", "tuple") or rng.random() < 0.6:
+        if shape in ("list", "tuple", "listiter", "deque") or rng.random() < 0.6:
             items.append(("yield", rng.choice(CHUNKS)))
         elif unconsumed:
             # events inside an iterable that webob does not consume: the known-finding region (write) or a late raise
@@ -869,7 +967,9 @@ def rand_script(rng, lazy_ok=True):
             items.append(("ev", e))
     if not started and shape in ("iter", "generator") and rng.random() < 0.9:
         items.insert(0, ("ev", ("start", rng.choice(SSTATUS), rng.choice(SHEADERS), None)))
-    s = {"call": call, "items": items, "close": rng.random() < 0.6, "shape": shape}
+    s = {"call": call, "items": items, "close": rng.random() < 0.6, "shape": shape,
+         "wrap": rng.choice([None, None, "object", "method", "partial"]), "sr_kw": rng.random() < 0.3,
+         "catch_style": rng.choice([None, None, "positional", "int", "omit", "object"])}
     if rng.random() < 0.3:
         declare_length(s)
     return s
@@ -900,6 +1000,7 @@ def jscript(s):
             return ["write", e[1].hex()]
         return ["raise", e[1]]
     return {"call": [jev(e) for e in s["call"]], "close": s["close"], "shape": s["shape"],
+            "wrap": s.get("wrap"), "sr_kw": bool(s.get("sr_kw")), "catch_style": s.get("catch_style"),
             "items": [["yield", i[1].hex()] if i[0] == "yield" else ["ev", jev(i[1])] for i in s["items"]]}
 
 
@@ -911,6 +1012,7 @@ def unjscript(d):
             return ("write", bytes.fromhex(e[1]))
         return ("raise", e[1])
     return {"call": [uev(e) for e in d["call"]], "close": d["close"], "shape": d["shape"],
+            "wrap": d.get("wrap"), "sr_kw": bool(d.get("sr_kw")), "catch_style": d.get("catch_style"),
             "items": [("yield", bytes.fromhex(i[1])) if i[0] == "yield" else ("ev", uev(i[1])) for i in d["items"]]}
 
 
@@ -1085,7 +1187,7 @@ def request_reuse_oracle(E, ops):
                 if c.as_bytes() not in exps or c.body != body:
                     msg = "a copy() serialises to %r with body %r" % (c.as_bytes(), c.body)
             elif op == "from_bytes":
-                r2 = Request.from_bytes(req.as_bytes())
+                r2 = type(req).from_bytes(req.as_bytes())
                 msg = None if r2.body == body and r2.url == req.url else "from_bytes(as_bytes()) gives %r %r" % (r2.url, r2.body)
             elif op == "headers":
                 h = {k: v for k, v in req.headers.items() if k != "Content-Length"}
@@ -1172,9 +1274,10 @@ def pipelined_oracle(msgs, is_resp):
     from webob import Request, Response
     data = b"".join(m[0] for m in msgs)
     f = io.BytesIO(data)
-    for i, (wire, check) in enumerate(msgs):
+    for i, m in enumerate(msgs):
+        wire, check = m[0], m[1]
         try:
-            obj = (Response if is_resp else Request).from_file(f)
+            obj = (m[2] if len(m) > 2 else (Response if is_resp else Request)).from_file(f)
         except Exception as e:  # noqa
             return ("pipelined:from_file-raises", "message %d of %d in one file: from_file raised %s: %s" % (i, len(msgs), exc_name(e), e))
         msg = check(obj)
@@ -1248,6 +1351,246 @@ def observe_as_bytes_history(sks, E):
         except Exception as e:  # noqa
             out.append(Err(exc_name(e)))
     return out
+
+
+# =========================================================================== configurations of the Response class
+_RESP_CLASSES = {}
+
+
+def resp_class(name):
+    """the class attributes Response.from_file / __str__ can depend on"""
+    from webob import Response
+    if not _RESP_CLASSES:
+        class Latin1Body(Response):
+            default_body_encoding = "latin-1"
+            default_charset = None
+            default_content_type = None
+
+        class PlainDefaults(Response):
+            default_content_type = "text/plain"
+            default_charset = "latin-1"
+            default_conditional_response = True
+            unicode_errors = "replace"
+
+        _RESP_CLASSES.update({None: Response, "latin1body": Latin1Body, "plaindefaults": PlainDefaults})
+    return _RESP_CLASSES[name]
+
+
+TEXTS = ["", "x", "h\xe9llo w\xf6rld", "\r\n\r\nX: y\r\n", "na\xefve \xa0", "a\nb", "  padded  ", "\xff\xfe"]
+INT_STATUS = {200: "200 OK", 404: "404 Not Found", 201: "201 Created", 500: "500 Internal Server Error", 299: "299 Success",
+              204: "204 No Content", 418: "418 I'm a teapot"}
+
+
+def rt_response_config_oracle(cls_name, status_int, charset, t, hl0):
+    """Response.__str__ / from_file under a non-default configuration: another charset in Content-Type, a subclass with
+    other default_* attributes, a status given as an int; the text file is read back with the SAME class."""
+    cls = resp_class(cls_name)
+    enc = charset or ("latin-1" if cls_name == "latin1body" else "utf-8")
+    try:
+        body = t.encode(enc)
+    except UnicodeEncodeError:
+        return None
+    hl = list(hl0)
+    if charset:
+        hl.insert(0, ("Content-Type", "text/plain; charset=%s" % charset))
+    hl.append(("Content-Length", str(len(body))))
+    status = INT_STATUS[status_int]
+    resp = cls(status=status_int, headerlist=list(hl), app_iter=[body])
+    if resp.status != status:
+        return ("response-roundtrip:constructor", "Response(status=%d).status is %r" % (status_int, resp.status))
+    s1 = str(resp)
+    exp = "\r\n".join([status] + ["%s: %s" % kv for kv in hl] + (["", t] if body else []))
+    if s1 != exp:
+        return ("response-roundtrip:str-form", "%s: str(resp) is %r, expected %r" % (cls.__name__, s1, exp))
+    for how, mk in (("from_file(StringIO(str))", lambda: io.StringIO(s1)),
+                    ("from_file(minimal text file)", lambda: MinimalFile(io.StringIO(s1))),
+                    ("from_file(wire bytes)", lambda: io.BytesIO(resp_wire(status, hl, body)))):
+        f = mk()
+        try:
+            r2 = cls.from_file(f)
+        except Exception as e:  # noqa
+            return ("response-roundtrip:from_file-raises", "%s %s raised %s: %s on %r" % (cls.__name__, how, exc_name(e), e, s1))
+        if type(r2) is not cls:
+            return ("response-roundtrip:class", "%s.from_file returned a %s" % (cls.__name__, type(r2).__name__))
+        res = check_resp(r2, f.read(), status, hl, body, b"" if "wire" in how else "", "%s %s (charset %s)" % (cls.__name__, how, enc),
+                         "wire" not in how)
+        if res:
+            return res
+    return None
+
+
+# =========================================================================== outside the statement's domain
+def outside_domain_request(kind, rng):
+    """Requests OUTSIDE the hypotheses of the round-trip statement: what must still hold is checked (no exception other
+    than the ValueError family, and every component the deviation does not touch still round-trips).
+    Returns (result, case)."""
+    from webob import Request
+    E = rand_env(rng, wellformed=True)
+    if not E["input"]:
+        E["input"] = b"body \xff"
+        E["hdrs"] = [kv for kv in E["hdrs"] if kv[0] != "CONTENT_LENGTH"] + [("CONTENT_LENGTH", "6")]
+        E["seekable"], E["term"] = True, False
+    touched = set()
+    expect_raise = None
+    if kind == "latin1-value":              # ASCII-valued headers only: a latin-1 value is re-read as UTF-8
+        E["hdrs"].append(("HTTP_X_LATIN", rng.choice(["caf\xe9", "\xc3\xa9", "\xff", "na\xefve"])))
+        touched = {"headers"}
+        expect_raise = ValueError
+    elif kind == "wide-value":              # not even latin-1: as_bytes cannot encode it
+        E["hdrs"].append(("HTTP_X_WIDE", "\u20ac"))
+        expect_raise = ValueError
+        touched = {"headers"}
+    elif kind == "lower-method":            # from_file upper-cases the method
+        E["method"] = E["method"].lower() if E["method"].lower() != E["method"] else "get"
+        touched = {"method"}
+    elif kind == "https":                   # the wire form does not carry the scheme
+        E["scheme"] = "https"
+        touched = {"url"}
+    elif kind == "no-host":                 # nor the host, when there is no Host header
+        E["hdrs"] = [kv for kv in E["hdrs"] if kv[0] != "HTTP_HOST"]
+        touched = {"url"}
+    elif kind == "padded-value":            # surrounding whitespace of a value is not significant
+        E["hdrs"].append(("HTTP_X_PAD", rng.choice([" a", "a ", "\ta\t", " "])))
+        touched = {"headers"}
+    elif kind == "odd-keys":                # keys no CGI gateway produces: two keys, one header name
+        E["hdrs"] += [("HTTP_X_DUP", "1"), ("HTTP_x-dup", "2")]
+        touched = {"headers"}
+    elif kind == "empty-path":              # no request target at all
+        E["script"], E["path"], E["qs"] = b"", b"", ""
+        expect_raise = ValueError
+        touched = {"url"}
+    elif kind == "space-in-query":          # not a URL: the request line has four fields
+        E["qs"] = "a=1 2"
+        touched = {"url", "version"}
+        expect_raise = ValueError
+    elif kind == "big-body":                # beyond request_body_tempfile_limit and the 65535-byte copy step
+        n = rng.choice([10 * 1024 + 1, 65535, 65536, 70001])
+        E["input"] = bytes(rng.randrange(256) for _ in range(64)) * (n // 64) + b"x" * (n % 64)
+        E["hdrs"] = [kv for kv in E["hdrs"] if kv[0] != "CONTENT_LENGTH"]
+        if rng.random() < 0.5:
+            E["hdrs"].append(("CONTENT_LENGTH", str(n)))
+            E["seekable"], E["term"] = rng.random() < 0.5, False
+        else:
+            E["seekable"], E["term"] = False, True
+        if E.get("cls") is None and rng.random() < 0.5:
+            E["cls"] = "smalltmp"
+    elif kind == "non-utf8-text":           # a text file cannot carry a body that is not UTF-8
+        E["input"] = b"\xff\xfe body"
+        E["hdrs"] = [kv for kv in E["hdrs"] if kv[0] != "CONTENT_LENGTH"] + [("CONTENT_LENGTH", str(len(E["input"])))]
+    case = {"kind": "outside", "what": kind, "env": jE(E)}
+    return outside_check(kind, E, touched, expect_raise), case
+
+
+def outside_check(kind, E, touched, expect_raise):
+    req = build_request(E)
+    body = E["input"]
+    try:
+        url1, h1 = req.url, dict(req.headers)
+        if kind == "non-utf8-text":
+            try:
+                req.as_text()
+                return ("outside-domain:" + kind, "as_text() of a body that is not UTF-8 did not raise")
+            except UnicodeDecodeError:
+                pass
+        b = req.as_bytes()
+        r2 = type(req).from_bytes(b)
+    except Exception as e:  # noqa
+        if expect_raise and isinstance(e, expect_raise):
+            return None
+        return ("outside-domain:" + kind, "%s: %s (only %s is a documented refusal here)" % (
+            exc_name(e), e, expect_raise.__name__ if expect_raise else "no exception"))
+    if b.count(b"\r\n\r\n") < 1 or not b.endswith(body):
+        return ("outside-domain:" + kind, "as_bytes() does not end with the body: %r" % b[-60:])
+    if "method" not in touched and r2.method != E["method"]:
+        return ("outside-domain:" + kind, "method %r became %r" % (E["method"], r2.method))
+    if kind == "lower-method" and r2.method != E["method"].upper():
+        return ("outside-domain:" + kind, "method %r became %r" % (E["method"], r2.method))
+    if "url" not in touched and r2.url != url1:
+        return ("outside-domain:" + kind, "url %r became %r" % (url1, r2.url))
+    if kind in ("https", "no-host") and r2.path_qs != req.path_qs:
+        return ("outside-domain:" + kind, "path_qs %r became %r" % (req.path_qs, r2.path_qs))
+    if kind == "https" and r2.host != req.host:
+        return ("outside-domain:" + kind, "host %r became %r" % (req.host, r2.host))
+    if "version" not in touched and r2.http_version != E["proto"]:
+        return ("outside-domain:" + kind, "version %r became %r" % (E["proto"], r2.http_version))
+    if r2.body != body:
+        return ("outside-domain:" + kind, "body of %d bytes became one of %d bytes" % (len(body), len(r2.body)))
+    h2 = dict(r2.headers)
+    skip = {"Content-Length", "X-Latin", "X-Pad", "X-Dup"}
+    if {k: v for k, v in h1.items() if k not in skip} != {k: v for k, v in h2.items() if k not in skip}:
+        return ("outside-domain:" + kind, "untouched headers %r became %r" % (h1, h2))
+    if kind == "padded-value" and h2.get("X-Pad") != h1["X-Pad"].strip():
+        return ("outside-domain:" + kind, "X-Pad %r became %r" % (h1["X-Pad"], h2.get("X-Pad")))
+    if kind == "big-body":
+        try:
+            type(req).from_bytes(b + b" ")
+            return ("request-roundtrip:trailing-data-accepted", "from_bytes accepted a space after a %d-byte body" % len(body))
+        except ValueError:
+            pass
+    return None
+
+
+OUTSIDE_KINDS = ["latin1-value", "wide-value", "lower-method", "https", "no-host", "padded-value", "odd-keys", "empty-path",
+                 "space-in-query", "big-body", "non-utf8-text"]
+
+
+def outside_domain_script(rng):
+    """application scripts that are not valid WSGI (a second start_response without exc_info): still no crash, the last
+    start_response wins and no byte is lost"""
+    s = rand_script(rng, lazy_ok=False)
+    s["call"] = [("start", "200 OK", [], None), ("write", b"w"), ("start", "404 Not Found", [("X-A", "1")], None)] + \
+        [e for e in s["call"] if e[0] == "write"]
+    s["items"] = [i for i in s["items"] if i[0] == "yield"]
+    catch = rng.random() < 0.5
+    via = rng.choice(["call_application", "get_response"])
+    return call_application_oracle(s, catch, via), {"kind": "script", "script": jscript(s), "catch": catch, "via": via}
+
+
+def blank_shapes_oracle(rng):
+    """Request.blank with the alternative argument shapes (POST as dict / list / with a file upload, headers as dict /
+    list, body by keyword, base_url), then the round-trip statement"""
+    from webob import Request
+    shape = rng.choice(["post-dict", "post-list", "post-file", "post-bytes", "headers-list", "body-kw", "base-url", "environ-kw"])
+    kw, path = {}, "/p/%C3%A9?q=1"
+    if shape == "post-dict":
+        kw = {"POST": {"a": "1", "b": "x y&z"}}
+    elif shape == "post-list":
+        kw = {"POST": [("a", "1"), ("a", "2"), ("b", "\xe9")]}
+    elif shape == "post-file":
+        kw = {"POST": [("f", ("name.bin", b"\r\n--x\r\n\xff\x00")), ("a", "1")]}
+    elif shape == "post-bytes":
+        kw = {"POST": b"raw=1&x=%ff", "method": "PUT"}
+    elif shape == "headers-list":
+        kw = {"headers": [("X-One", "1"), ("Accept", "text/html, */*;q=0.1")], "method": "DELETE"}
+    elif shape == "body-kw":
+        kw = {"body": b"\r\n\r\n\xff", "method": "PATCH", "content_type": "application/octet-stream"}
+    elif shape == "base-url":
+        kw = {"base_url": "http://example.org:8080/mount", "method": "POST", "body": b"x"}
+    elif shape == "environ-kw":
+        kw = {"environ": {"HTTP_X_ENV": "e: 1", "SERVER_PROTOCOL": "HTTP/1.1"}, "body": b"abc", "method": "POST"}
+    case = {"kind": "blank", "shape": shape}
+    try:
+        req = Request.blank(path, **kw)
+        url1, h1, body, m, v = req.url, dict(req.headers), req.body, req.method, req.http_version
+        b = req.as_bytes()
+        r2 = Request.from_bytes(b)
+    except Exception as e:  # noqa
+        return ("request-roundtrip:from_bytes-raises", "Request.blank(%r, **%r) then as_bytes/from_bytes raised %s: %s" % (
+            path, sorted(kw), exc_name(e), e)), case
+    E = {"method": m, "proto": v}
+    msg = compare_requests(E, req, r2, url1, h1, body, "from_bytes (Request.blank %s)" % shape)
+    if msg:
+        return msg, case
+    if shape.startswith("post-") and shape != "post-bytes":
+        if list(r2.POST.items()) != list(req.POST.items()) and shape != "post-file":
+            return ("request-roundtrip:body", "POST fields %r became %r" % (list(req.POST.items()), list(r2.POST.items()))), case
+    if body:
+        try:
+            Request.from_bytes(b + b"\r\n")
+            return ("request-roundtrip:trailing-data-accepted", "from_bytes accepted CRLF after the body (Request.blank %s)" % shape), case
+        except ValueError:
+            pass
+    return None, case
 
 
 # =========================================================================== streams for the parser correspondences
@@ -1326,8 +1669,8 @@ def mutate_head(rng, data, is_resp=False):
     return b"\r\n".join(lines) + s + body
 
 
-def observe_from_bytes(b):
-    from webob import Request
+def observe_from_bytes(b, cls=None):
+    Request = req_class(cls)
     try:
         r = Request.from_bytes(b)
     except Exception as e:  # noqa
@@ -1335,8 +1678,8 @@ def observe_from_bytes(b):
     return observe_req(r)
 
 
-def observe_from_file(text, stream):
-    from webob import Request
+def observe_from_file(text, stream, cls=None):
+    Request = req_class(cls)
     f = io.StringIO(stream) if text else io.BytesIO(stream)
     try:
         r = Request.from_file(f)
@@ -1389,6 +1732,22 @@ def run_case(case):
             return r
         if case.get("textual"):
             return rt_response_str_oracle(st, hl, body)
+        return None
+    if kind == "response-config":
+        return rt_response_config_oracle(case["cls"], case["status"], case["charset"], case["text"], [tuple(p) for p in case["headers"]])
+    if kind == "outside":
+        E = unjE(case["env"])
+        what = case["what"]
+        touched = {"latin1-value": {"headers"}, "wide-value": {"headers"}, "lower-method": {"method"}, "https": {"url"}, "no-host": {"url"},
+                   "padded-value": {"headers"}, "odd-keys": {"headers"}, "empty-path": {"url"}, "space-in-query": {"url", "version"}}.get(what, set())
+        raises = ValueError if what in ("latin1-value", "wide-value", "empty-path", "space-in-query") else None
+        return outside_check(what, E, touched, raises)
+    if kind == "blank":
+        import random
+        for seed in range(200):
+            res, c = blank_shapes_oracle(random.Random(seed))
+            if c["shape"] == case["shape"]:
+                return res
         return None
     if kind == "sub-history":
         return sub_request_history_oracle(case["steps"])
@@ -1496,18 +1855,18 @@ def run(ctx):
         if not in_request_model(b):
             continue
         meta = {"kind": "request", "env": jE(E), "wellformed": True, "stream": b.hex(), "mutated": mutated}
-        cases.append((cstr(b), observe_from_bytes(b), meta))
+        cases.append((cstr(b), observe_from_bytes(b, E.get("cls")), meta))
         if rng.random() < 0.6:
             extra = rng.choice([b"", b"X", b"\r\nmore", b"\xff"])
             if not in_request_model(b + extra):
                 extra = b""
-            fcases.append((cpair("false", cstr(b + extra)), observe_from_file(False, b + extra), meta))
+            fcases.append((cpair("false", cstr(b + extra)), observe_from_file(False, b + extra, E.get("cls")), meta))
         try:
             t = (b + rng.choice([b"", b"", b"\xc3\xa9x"])).decode("utf-8")
         except UnicodeDecodeError:
             continue
         if in_request_model(t) and rng.random() < 0.6:
-            fcases.append((cpair("true", cstr(t)), observe_from_file(True, t), dict(meta, text=True)))
+            fcases.append((cpair("true", cstr(t)), observe_from_file(True, t, E.get("cls")), dict(meta, text=True)))
     for i in ctx.corr("from_bytes", IMPORTS, "c_from_bytes", cases, in_type="bytes")[:5]:
         follow_up(ctx, "from_bytes", cases[i][2])
     for i in ctx.corr("from_file", IMPORTS, "c_from_file", fcases, in_type="(bool * str)")[:5]:
@@ -1609,6 +1968,7 @@ def run(ctx):
     oracle_responses(ctx)
     oracle_scripts(ctx)
     oracle_histories(ctx)
+    oracle_configurations(ctx)
 
     ctx.extra["rule"] = (
         "correspondence: requests are built from generated environs (methods incl. extension tokens, script/path octets incl. "
@@ -1679,8 +2039,8 @@ def oracle_requests(ctx):
     nt = 0
     for i in range(n):
         E = rand_env(rng, wellformed=True)
-        extra = rng.choice([b"", b"X", b"\r\n", b"GET / HTTP/1.0\r\n\r\n", b"\x00"])
-        fk = rng.choice(["bytesio", "bytesio", "buffered", "tempfile"] if i % 50 == 0 else ["bytesio", "buffered"])
+        extra = rng.choice(EXTRAS)
+        fk = rng.choice(["bytesio", "bytesio", "buffered", "tempfile"] if i % 50 == 0 else ["bytesio", "buffered", "minimal"])
         case = {"kind": "request", "env": jE(E), "extra": extra.hex()}
         nt += nontrivial_msg(len(E["hdrs"]), E["input"])
         if not report(ctx, rt_request_oracle(E, extra, fk), case, "request-roundtrip"):
@@ -1699,7 +2059,7 @@ def oracle_requests(ctx):
     bodies = [bytes(x) for k in range(0, ctx.scale(3, 4)) for x in __import__("itertools").product(alpha, repeat=k)]
     cnt = 0
     for body in bodies:
-        for extra in [b""] + [bytes([a]) for a in alpha]:
+        for extra in [b""] + [bytes([a]) for a in alpha + [32, 9]] + [b"\r\n", b" \r\n "]:
             E = {"method": "POST", "script": b"", "path": b"/p", "qs": "q=1", "proto": "HTTP/1.1", "scheme": "http", "sname": "localhost",
                  "sport": "80", "hdrs": [("HTTP_HOST", "localhost:80"), ("HTTP_X_A", "a: b")] +
                  ([("CONTENT_LENGTH", str(len(body)))] if body else []), "input": body, "seekable": True, "term": False}
@@ -1773,8 +2133,8 @@ def oracle_responses(ctx):
     nt = 0
     for i in range(n):
         st, hl, body = rand_resp(rng)
-        trailing = rng.choice([b"", b"TRAIL", b"\r\n", b"HTTP/1.1 200 OK\r\n\r\n"])
-        fk = rng.choice(["bytesio", "buffered"]) if i % 50 else "tempfile"
+        trailing = rng.choice([b"", b"TRAIL", b"\r\n", b" ", b"\n\n", b"HTTP/1.1 200 OK\r\n\r\n"])
+        fk = rng.choice(["bytesio", "buffered", "minimal"]) if i % 50 else "tempfile"
         nt += nontrivial_msg(len(hl), body)
         report(ctx, rt_response_oracle(st, hl, body, trailing, fk), jresp(st, hl, body, trailing=trailing.hex(), file=fk), "response-roundtrip")
     ctx.oracle_count("response-roundtrip", n, nt)
@@ -1835,7 +2195,7 @@ def oracle_scripts(ctx):
     for _ in range(n):
         s = rand_script(rng)
         catch = rng.random() < 0.5
-        via = rng.choice(["call_application", "get_response"])
+        via = rng.choice(["call_application", "get_response", "send"])
         nt += 1 if len(s["call"]) + len(s["items"]) >= 2 else 0
         report(ctx, call_application_oracle(s, catch, via), {"kind": "script", "script": jscript(s), "catch": catch, "via": via}, "sub-request")
     ctx.oracle_count("sub-request", n, nt)
@@ -1865,8 +2225,39 @@ def pipelined_requests(envs):
         url1, h1 = req.url, dict(req.headers)
         b = req.as_bytes()
         msgs.append((b, lambda r2, E=E, req=req, url1=url1, h1=h1: (lambda m: m[1] if m else None)(
-            compare_requests(E, req, r2, url1, h1, E["input"], "from_file"))))
+            compare_requests(E, req, r2, url1, h1, E["input"], "from_file")), type(req)))
     return pipelined_oracle(msgs, False)
+
+
+def oracle_configurations(ctx):
+    """configurations, argument shapes and the outside of the modelled value domain"""
+    rng = ctx.sub_rng("oracle-config")
+    n = ctx.scale(1200, 12000)
+    for _ in range(n):
+        cls_name = rng.choice([None, None, "latin1body", "plaindefaults"])
+        charset = None if cls_name == "latin1body" else rng.choice([None, "latin-1", "utf-8", "cp1252", "utf-16", "ascii", "ISO-8859-15"])
+        t = rng.choice(TEXTS)
+        code = rng.choice(sorted(INT_STATUS))
+        hl0 = [(rng.choice(["X-Foo", "x-foo", "Set-Cookie", "ETag"]), rand_rvalue(rng, latin=True)) for _ in range(rng.randrange(3))]
+        case = {"kind": "response-config", "cls": cls_name, "status": code, "charset": charset, "text": t, "headers": [list(p) for p in hl0]}
+        report(ctx, rt_response_config_oracle(cls_name, code, charset, t, hl0), case, "response-config")
+    ctx.oracle_count("response-config", n, n)
+    m = ctx.scale(660, 6600)
+    for i in range(m):
+        kind = OUTSIDE_KINDS[i % len(OUTSIDE_KINDS)]
+        if kind == "big-body" and not ctx.thorough and i >= 5 * len(OUTSIDE_KINDS):
+            kind = "padded-value"
+        res, case = outside_domain_request(kind, rng)
+        report(ctx, res, case, "outside-domain")
+    for _ in range(ctx.scale(100, 1000)):
+        res, case = outside_domain_script(rng)
+        report(ctx, res, case, "outside-domain")
+    ctx.oracle_count("outside-domain", m + ctx.scale(100, 1000), m)
+    k = ctx.scale(80, 400)
+    for _ in range(k):
+        res, case = blank_shapes_oracle(rng)
+        report(ctx, res, case, "request-blank-shapes")
+    ctx.oracle_count("request-blank-shapes", k, k)
 
 
 def oracle_histories(ctx):
@@ -1917,7 +2308,7 @@ def replay(ctx, path):
         res = api_request_case(case)
     elif kind == "order":
         res, _ = order_independence_oracle(fw.Ctx("C20", "quick", data.get("seed", 0)).sub_rng("oracle-history"), 12)
-    elif kind in ("request", "response", "script", "sub-history", "request-reuse", "response-reuse", "pipelined-response",
+    elif kind in ("request", "response", "script", "sub-history", "response-config", "outside", "blank", "request-reuse", "response-reuse", "pipelined-response",
                   "pipelined-request"):
         if kind == "request":
             case = dict(case, wellformed=True)
